@@ -166,7 +166,7 @@ InitTop(st, lv0) ==
         pk == Key("prefix", G, "h")
         pr == LastPrefix(lv)
         st0 == IF pr.t # "none" /\ pk \in DOMAIN st.o /\ pr.t = "str"
-               THEN ResetDirs([st EXCEPT !.o[pk].v = VStr(pr.w[1])], PrefixDirs, pr.w[1]) ELSE st
+               THEN ResetDirs([st EXCEPT !.o[pk].v = VStr(SanitizePrefix(pr.w[1]))], PrefixDirs, SanitizePrefix(pr.w[1])) ELSE st
         r1 == ApplyAll(st0, LevelItems(NoPrefix(lv[1]), G))
         r3 == IF r1.ok THEN ApplyAll(r1.st, LevelItems(NoPrefix(lv[3]), G)) ELSE r1
         r4 == IF r3.ok THEN ApplyAll(r3.st, LevelItems(NoPrefix(lv[4]), G)) ELSE r3
